@@ -43,6 +43,9 @@ def self_attr_accesses(fn):
     return out
 
 
+METHODS = {}      # the methods of Environment (filled by run)
+
+
 def holds_lock(node, fn):
     return any(any(unparse(it.context_expr) == LOCK for it in w.items) for w in enclosing_withs(node, fn))
 
@@ -53,6 +56,8 @@ def run(repo, res):
     if env is None:
         raise AnalysisError('Environment vanished')
     methods = {k: v.node for k, v in env.methods.items()}
+    METHODS.clear()
+    METHODS.update(methods)
 
     # ---- thread contexts -------------------------------------------------
     starter_targets = set()
@@ -130,7 +135,15 @@ def run(repo, res):
                 for x in acc[attr]:
                     if x[3] == 'w':
                         first_write[x[1]] = min(first_write.get(x[1], x[4].lineno), x[4].lineno)
-                ok = all(x[3] == 'w' or (x[1] in first_write and x[4].lineno > first_write[x[1]]) for x in acc[attr])
+
+                def after_own_write(mname, line, depth=0):
+                    """the access at `line` of method mname happens after a write by the same invocation: in the method itself, or
+                    in every method that calls it (a helper of the launcher), before the call"""
+                    if mname in first_write and line > first_write[mname]:
+                        return True
+                    sites = [(cm, c) for cm, cn in methods.items() for c in calls_in(cn) if unparse(c.func) == 'self.' + mname]
+                    return bool(sites) and depth < 4 and all(after_own_write(cm, c.lineno, depth + 1) for cm, c in sites)
+                ok = all(x[3] == 'w' or after_own_write(x[1], x[4].lineno) for x in acc[attr])
             res.check('C16-R1', key, ok, REMOTE, w[4].lineno,
                       'field %s is accessed without a common lock (write in %s/%s, access in %s/%s); '
                       'accepted only as: %s -- that supporting fact does not hold'
@@ -197,6 +210,13 @@ def run(repo, res):
                 # the handle must be stored under the lock before the thread is started
                 st = stmt_of(c)
                 stored = isinstance(st, ast.Assign) and unparse(st.targets[0]) == 'self.prepare_thread'
+                if not stored and isinstance(st, ast.Assign) and isinstance(st.targets[0], ast.Name):
+                    # kept in a local first: the local must be stored in the handle, under the lock, before it is started
+                    v = st.targets[0].id
+                    starts = [x for x in calls_in(m) if unparse(x.func) == v + '.start']
+                    stores = [x for x in ast.walk(m) if isinstance(x, ast.Assign) and unparse(x.targets[0]) == 'self.prepare_thread'
+                              and unparse(x.value) == v and holds_lock(x, m)]
+                    stored = bool(starts) and bool(stores) and all(any(y.lineno < x.lineno for y in stores) for x in starts)
                 res.check('C16-R3', key, locked and g1 and g2 and stored, REMOTE, c.lineno,
                           'a starter thread may be created only under prepare_lock (%s), after '
                           'returning early when a starter is running (%s) or a connection exists '
@@ -249,6 +269,16 @@ def run(repo, res):
             else:
                 out.extend(writes_in_order(name, seen))
         return out
+    def read_only(mname, depth=0):
+        """a helper that only looks at the object's fields (and calls such helpers)"""
+        fn = methods[mname]
+        if any(kind in 'wd' for _a, kind, _n in self_attr_accesses(fn)):
+            return False
+        for c in calls_in(fn):
+            f = unparse(c.func)
+            if f.startswith('self.') and f[5:] in methods and (depth >= 3 or not read_only(f[5:], depth + 1)):
+                return False
+        return True
     npub = 0
     for t in sorted(starter_targets):
         order = []
@@ -261,11 +291,19 @@ def run(repo, res):
                     if mname in starter_targets or mname == '__init__':
                         continue
                     reads = {}
-                    for attr, kind, node in self_attr_accesses(m):
-                        if kind == 'r' and attr in (first, later):
-                            pos = (node.lineno, node.col_offset)
-                            if attr not in reads or pos < reads[attr]:
-                                reads[attr] = pos
+
+                    def collect(fn, at=None, depth=0):
+                        # a read made by a helper method counts where the helper is called
+                        for attr, kind, node in self_attr_accesses(fn):
+                            if kind == 'r' and attr in (first, later):
+                                pos = at or (node.lineno, node.col_offset)
+                                if attr not in reads or pos < reads[attr]:
+                                    reads[attr] = pos
+                        for c in calls_in(fn):
+                            f = unparse(c.func)
+                            if f.startswith('self.') and f[5:] in methods and depth < 3 and read_only(f[5:]):
+                                collect(methods[f[5:]], at or (c.lineno, c.col_offset), depth + 1)
+                    collect(m)
                     if len(reads) < 2:
                         continue
                     npub += 1
@@ -362,7 +400,14 @@ def early_return_guard(node, fn, pred, need_lock=False):
 
 def starter_joined_before(call, fn):
     """A `.join()` on the starter handle occurs earlier in the same locked region."""
-    joins = [c for c in calls_in(fn) if isinstance(c.func, ast.Attribute) and c.func.attr == 'join']
+    def is_join(c, depth=0):
+        if isinstance(c.func, ast.Attribute) and c.func.attr == 'join':
+            return True
+        # a helper method of the same class that joins the starter
+        f = unparse(c.func)
+        helper = METHODS.get(f[5:]) if f.startswith('self.') else None
+        return helper is not None and depth < 3 and any(is_join(x, depth + 1) for x in calls_in(helper))
+    joins = [c for c in calls_in(fn) if is_join(c)]
     return any((j.lineno, j.col_offset) < (call.lineno, call.col_offset) and holds_lock(j, fn) for j in joins)
 
 
